@@ -42,7 +42,12 @@ class KeywordSearches:
         """
         invert: bool = terms.inverted
         keyword: PathSearchKeywords = terms.keyword
-        parameters: List[str] = terms.parameters
+        try:
+            parameters: List[str] = terms.parameters
+        except ValueError as wrap_ex:
+            # e.g. an unmatched (escaped) demarcation symbol
+            raise YAMLPathException(
+                str(wrap_ex), str(yaml_path), str(terms)) from wrap_ex
         nc_matches: Generator[NodeCoords, None, None]
 
         if keyword is PathSearchKeywords.DISTINCT:
